@@ -127,7 +127,7 @@ def tmpl(name):
 
 # ----------------------------------------------------------------------------------------------- one case
 class Case:
-    def __init__(self, names, stop='eof', cut=None, mode='transaction', cache=0, roles=(0,), paused=None, sym_status=False, plugins=False, shards=None, custom=False, params=None, second=None, second_params=None, idle_timeout=False, stmt_timeout=False, shutdown=False):
+    def __init__(self, names, stop='eof', cut=None, mode='transaction', cache=0, roles=(0,), paused=None, sym_status=False, plugins=False, shards=None, custom=False, params=None, second=None, second_params=None, idle_timeout=False, stmt_timeout=False, shutdown=False, checkout_failures=0):
         self.names = list(names)
         self.stop = stop              # 'eof' | 'X' | 'drop' (the whole socket is gone after the last message: reads hit EOF AND writes fail)
         self.cut = cut                # None or number of bytes of the LAST message delivered before EOF
@@ -137,6 +137,7 @@ class Case:
         self.paused = paused          # None | 'start' | ('after', k): PAUSE arrives while the client is idle before message k
         self.sym_status = sym_status
         self.shards = shards          # None or list of role tuples, one per shard (overrides `roles`)
+        self.checkout_failures = checkout_failures   # up to n checkouts of the session may time out (pool exhausted): solver's choice
         self.shutdown = shutdown           # the shutdown broadcast may arrive at any select! of the session
         self.stmt_timeout = stmt_timeout   # statement_timeout configured: a pg_sleep statement may or may not be answered in time
         self.idle_timeout = idle_timeout   # idle_client_in_transaction_timeout configured: it may fire at any read inside a transaction
@@ -153,6 +154,7 @@ class Case:
         s += '' if len(self.roles) == 1 else '/%dbackends' % len(self.roles)
         s += '/symstatus' if self.sym_status else ''
         s += '' if self.paused is None else '/paused:%s' % (self.paused,)
+        s += '/checkout-failures:%d' % self.checkout_failures if self.checkout_failures else ''
         s += '/shutdown' if self.shutdown else ''
         s += '/idle-timeout' if self.idle_timeout else ''
         s += '/statement-timeout' if self.stmt_timeout else ''
@@ -226,7 +228,8 @@ def run_case(chk, ob, ip, prog, case, props, extra_judge=None):
         env = HE.HandleEnv(ip_, prog, bks, sent, client_over=client_over, pool_over=pool_over, paused=(case.paused in ('start', 'start-resume')),
                            pending_at=pend, on_pending=on_pending, settings_over=settings_over,
                            boundaries=[sum(len(mm) for mm in msgs[:k]) for k in range(len(msgs) + 1)],
-                           idle_timeout_ms=(400 if case.idle_timeout else 0), statement_timeout_ms=(500 if case.stmt_timeout else 0), shutdown=case.shutdown)
+                           idle_timeout_ms=(400 if case.idle_timeout else 0), statement_timeout_ms=(500 if case.stmt_timeout else 0), shutdown=case.shutdown,
+                           checkout_failures=case.checkout_failures)
         if case.cache:
             def give_cache(b):
                 setf(prog, b.server, 'Server', 'prepared_statement_cache', some(ip_, lru([], case.cache)))
@@ -263,16 +266,34 @@ def run_case(chk, ob, ip, prog, case, props, extra_judge=None):
                 # the denied statement text inside any Query / Parse that reaches a backend (statement names may be rewritten)
                 cm = HE.conc(m)
                 return cm is not None and cm[:1] in (b'Q', b'P') and any(t and t in cm for t in denied_sql)
+        failed_at = [e[2] for e in env.events if e[0] == 'checkout_failed']
+        if failed_at:
+            # a request whose checkout timed out is answered by the pooler ("could not get connection from the pool"); a Sync batch is
+            # dropped as a whole; the session goes on
+            bounds = [sum(len(mm) for mm in msgs[:k]) for k in range(len(msgs) + 1)]
+            drop = set()
+            for pos in failed_at:
+                if pos in bounds[1:]:
+                    k = bounds.index(pos) - 1
+                    drop.add(k)
+                    if HE.code_of(msgs[k]) == 'S':
+                        j = k - 1
+                        while j >= 0 and HE.code_of(msgs[j]) in 'PBDECH':
+                            drop.add(j)
+                            j -= 1
+            eff = [mm for k, mm in enumerate(complete) if k not in drop]
         customV = []
         if case.custom:
             eff, customV = custom_reference(data, complete, dec, case.shards or [case.roles])
         V = HE.judge(data, eff, dec, cache_on=bool(case.cache), expect_incomplete=inc, denied=denied, allow_pooler_replies=bool(case.plugins or case.custom),
                      idle_rule=(case.mode == 'transaction' and not case.plugins and not case.custom and eff is complete),
                      stats_rule=('C18' in props and not case.plugins and not case.custom and eff is complete))
+        if failed_at and data['outcome'][0] == 'done' and data['client_read'] < len(sent):
+            V.append(('C04', 'H/checkout-failure-ends-session', 'after a checkout that timed out the session is ended instead of staying usable'))
         V += customV
         if case.params is not None:
             V += c12_reference(data, complete, dec, case.params)
-        if case.cache and not case.plugins and 'C08' in props:
+        if case.cache and not case.plugins and 'C08' in props and not failed_at:
             try:
                 V += c08_reference(data, complete, dec, case.cache)
             except ValueError:
@@ -321,6 +342,20 @@ def run_case(chk, ob, ip, prog, case, props, extra_judge=None):
                 cmd['eof'] = False
             if case.params is not None:
                 cmd['startup_params'] = dict(case.params)
+            if failed_at:
+                # natively another client holds the only connection (BEGIN ... COMMIT) around each request whose checkout timed out
+                bounds = [sum(len(mm) for mm in msgs[:k]) for k in range(len(msgs) + 1)]
+                steps, last = [], 0
+                for pos in sorted(set(failed_at)):
+                    k = bounds.index(pos) - 1 if pos in bounds else None
+                    if k is None:
+                        continue
+                    if bounds[k] > last:
+                        steps.append({'send_hex': hexs[2 * last:2 * bounds[k]]})
+                    steps += [{'other_begin': True}, {'send_hex': hexs[2 * bounds[k]:2 * pos]}, {'sleep_ms': 1900}, {'other_end': True}]
+                    last = pos
+                steps.append({'send_hex': hexs[2 * last:]})
+                cmd['steps'] = steps
             if case.shutdown:
                 fired = [e[2] for e in env.events if e[0] == 'shutdown']
                 if fired:
@@ -923,6 +958,9 @@ def h_violation(prop, key, cache_on, incomplete, hexs, n_before=None, denied_hex
                 # the transaction in progress was cut short: fewer of the client's statements reached a backend than it sent inside it
                 hit = [1] if any(v[1] in ('H/request-not-forwarded', 'H/pooler-rollback-mid-session') for v in
                                  HE.judge(data, complete, dec, cache_on=cache_on)) else []
+        if key == 'H/checkout-failure-ends-session':
+            # natively: the requests the client sent after the one that got the pool error never reach a backend
+            hit = [1] if any(v[1] == 'H/request-not-forwarded' for v in V) else []
         if key == 'H/idle-client-keeps-server':
             # the second client (pool of ONE connection) is not served while the first one sits idle outside a transaction
             bout = bytes.fromhex(r.get('b_out', ''))
